@@ -235,8 +235,54 @@ func encode(m *macaroon.Macaroon) string {
 func alter(r *sim.Run, src *issued, secrets [][]byte) *issued {
 	t := r.T
 	nt := &issued{secret: src.secret, server: src.server, user: src.user, at: src.at, life: src.life, altered: true}
-	kind := t.Intn(10)
+	kind := t.Intn(11)
 	switch kind {
+	case 10: // minted under the right secret with a near miss in place of one required caveat
+		o, err := decode(src.token)
+		if err != nil {
+			return nil
+		}
+		which := t.Intn(3)
+		m, err := macaroon.New(secrets[src.secret], o.Id(), o.Location(), macaroon.V2)
+		if err != nil {
+			return nil
+		}
+		var variant string
+		n := 0
+		for _, c := range o.Caveats() {
+			id := string(c.Id)
+			hit := false
+			switch which {
+			case 0:
+				hit = id == tokens.Gen
+			case 1:
+				hit = strings.HasPrefix(id, tokens.UserPrefix)
+			case 2:
+				hit = strings.HasPrefix(id, tokens.TimePrefix)
+			}
+			if hit && n == 0 {
+				n++
+				switch which {
+				case 0:
+					variant = sim.Pick(t, []string{id + "0", id + " ", id + "; admin = true", " " + id, strings.ToUpper(id[:1]) + id[1:], strings.Replace(id, " = ", "=", 1), strings.Replace(id, "1", "2", 1), id + "\n"})
+				case 1:
+					// a user the token does not name: the issued one with something after it, or under a near-miss key
+					variant = sim.Pick(t, []string{id + " ", id + "x", strings.Replace(id, " = ", "  = ", 1), strings.Replace(id, "user_id", "user_id2", 1), strings.Replace(id, "user_id", "User_id", 1)})
+				case 2:
+					// no instant at all: nothing a number-reading validator should take for an expiry
+					variant = sim.Pick(t, []string{tokens.TimePrefix, tokens.TimePrefix + "soon", id + "s", strings.Replace(id, " < ", " <= ", 1), strings.Replace(id, "time", "Time", 1)})
+				}
+				id = variant
+			}
+			m.AddFirstPartyCaveat([]byte(id))
+		}
+		if n == 0 {
+			return nil
+		}
+		// like missing_caveat this models a buggy or compromised issuer: the
+		// token lacks a required caveat and carries an unknown one instead
+		nt.token = encode(m)
+		nt.how = fmt.Sprintf("near_miss_caveat:%q", variant)
 	case 0: // flip one bit of the decoded bytes
 		bin, _ := base64.RawURLEncoding.DecodeString(src.token)
 		i := t.Intn(len(bin))
@@ -361,7 +407,7 @@ func TestEngine(t *testing.T) {
 		Name: "toksim",
 		Body: body,
 		Rule: func(string) string {
-			return "one run = 2-3 issuing secrets, 3-8 tape-chosen operations (issue with a duration from a boundary list, one time in eight from the edges of an int of seconds: negative = over at issue, 2^31 / 2^32+5 / around 2^63 ns / 2^55 s = never over within a run, advance the simulated clock to lifetime-2s..+1d, validate with same/other secret/user, alter token at byte or caveat level) starting at a tape-chosen second of the minute/hour; non-trivial = the run validated a token after its lifetime, >60 s into its lifetime, under a wrong secret/user, or validated an altered token; distinct = distinct event-log hash"
+			return "one run = 2-3 issuing secrets, 3-8 tape-chosen operations (issue with a duration from a boundary list, one time in eight from the edges of an int of seconds: negative = over at issue, 2^31 / 2^32+5 / around 2^63 ns / 2^55 s = never over within a run, advance the simulated clock to lifetime-2s..+1d, validate with same/other secret/user, alter token at byte or caveat level, incl. tokens minted under the right secret that lack a required caveat or carry a near miss of one - 'gen = 10', 'gen = 1 ', a user_id with a trailing character, a time caveat without a number - in its place) starting at a tape-chosen second of the minute/hour; non-trivial = the run validated a token after its lifetime, >60 s into its lifetime, under a wrong secret/user, or validated an altered token; distinct = distinct event-log hash"
 		},
 		Real:        []string{"tokens.GenerateLoginToken", "tokens.ValidateToken", "tokens.GetUserFromToken", "gopkg.in/macaroon.v2"},
 		Stub:        []string{"wall clock (testing/synctest fake clock)"},
